@@ -116,7 +116,7 @@ def decode(I, jm, v, mutated, path='$'):
     return v
 
 
-def differences(a, b, path, out, depth=0, owner=None, attr=None, visited=None, pub=None):
+def differences(a, b, path, out, depth=0, owner=None, attr=None, visited=None, pub=None, name_of=None):
     """attribute-wise comparison of the original and the decoded object; every difference is attributed to
     the innermost enclosing object's class and attribute: out gets (class name, attribute, message).  A pair of
     objects that is already being compared is not entered again (a reaction and the BEP relation it registers itself
@@ -139,12 +139,15 @@ def differences(a, b, path, out, depth=0, owner=None, attr=None, visited=None, p
         for k in sorted(set(a.attrs) | set(b.attrs)):
             if pub is not None and not pub(a.ci, k):
                 continue
+            # the private store of a property is named by the property (the public name a user knows it by)
+            nk = name_of(a.ci, k) if name_of is not None else k
             if k not in b.attrs:
-                out.append((cname, k, '%s.%s: missing after decoding' % (path, k)))
+                out.append((cname, nk, '%s.%s: missing after decoding' % (path, nk)))
             elif k not in a.attrs:
-                out.append((cname, k, '%s.%s: appears only after decoding' % (path, k)))
+                out.append((cname, nk, '%s.%s: appears only after decoding' % (path, nk)))
             else:
-                differences(a.attrs[k], b.attrs[k], '%s.%s' % (path, k), out, depth + 1, cname, k, visited, pub)
+                differences(a.attrs[k], b.attrs[k], '%s.%s' % (path, nk), out, depth + 1, cname, nk, visited, pub,
+                            name_of)
         return
     if isinstance(a, Obj) or isinstance(b, Obj):
         rec('%s became %s' % (show(a, 40), 'a plain dict' if isinstance(b, DictV) else show(b, 40)))
@@ -154,14 +157,14 @@ def differences(a, b, path, out, depth=0, owner=None, attr=None, visited=None, p
             rec('length %d became %d' % (len(a), len(b)))
             return
         for i, (x, y) in enumerate(zip(a.items, b.items)):
-            differences(x, y, '%s[%d]' % (path, i), out, depth + 1, owner, attr, visited, pub)
+            differences(x, y, '%s[%d]' % (path, i), out, depth + 1, owner, attr, visited, pub, name_of)
         return
     if isinstance(a, DictV) and isinstance(b, DictV):
         for k in sorted(set(a.d) | set(b.d), key=str):
             if k not in a.d or k not in b.d:
                 rec('key %r differs' % (k,))
             else:
-                differences(a.d[k], b.d[k], '%s[%r]' % (path, k), out, depth + 1, owner, attr, visited, pub)
+                differences(a.d[k], b.d[k], '%s[%r]' % (path, k), out, depth + 1, owner, attr, visited, pub, name_of)
         return
     if isinstance(a, Rat) and isinstance(b, Rat):
         if not a.eq(b):
@@ -563,6 +566,11 @@ def check(run, repo):
         got = repo.find_method(ci, k[1:], missing_ok=True) if ci is not None else None
         return bool(got) and any(ast.unparse(d_) == 'property' for d_ in got[1].decorator_list)
 
+    def public_name(ci, k):
+        if k.startswith('_') and not k.startswith('__') and is_public(ci, k):
+            return k[1:]
+        return k
+
     def cycle(I, label, obj, hist=None):
         """one object through encode -> decode -> compare -> encode; hist: the calls made on the object before
         (None: the object as its constructor left it)"""
@@ -604,7 +612,7 @@ def check(run, repo):
         diffs = []
         # an object that has been used is compared by its public state (public attributes and what the property
         # getters return): a cache a getter left behind is not part of what the property promises to restore
-        differences(obj, dec, label, diffs, pub=None if hist is None else is_public)
+        differences(obj, dec, label, diffs, pub=None if hist is None else is_public, name_of=public_name)
         # one finding per (class, attribute, what happened to the value): nested occurrences of the same defect
         # collapse, a different defect at the same attribute does not
         seen = set()
